@@ -383,10 +383,7 @@ func (e *Explorer) account(t *testing.T, x *X, pan any, stack string) {
 		e.notes[s]++
 	}
 	if pan != nil {
-		x.fails = append(x.fails, &Violation{
-			Signature: "harness-panic",
-			Message:   fmt.Sprintf("unexpected panic in check body: %v\n%s", pan, trunc(stack, 3000)),
-		})
+		x.fails = append(x.fails, panicViolation(pan, stack))
 	}
 	if len(e.res.Samples) < 3 && (x.sample != nil || len(x.logs) > 0) && len(x.nontriv) > 0 {
 		e.res.Samples = append(e.res.Samples, e.sampleOf(x))
@@ -400,7 +397,7 @@ func (e *Explorer) account(t *testing.T, x *X, pan any, stack string) {
 		y, _, pan2, _ := e.exec(t, picks(x.Trace), true)
 		e.res.Reruns++
 		if pan2 != nil {
-			y.fails = append(y.fails, &Violation{Signature: "harness-panic"})
+			y.fails = append(y.fails, panicViolation(pan2, ""))
 		}
 		if s2 := sigSet(y.fails); s2 != sigs {
 			e.res.HarnessErrs = append(e.res.HarnessErrs,
@@ -511,7 +508,7 @@ func (e *Explorer) ReplayOnce(t *testing.T, choices []int) (fails []*Violation, 
 	}
 	x, _, p, stack := e.exec(t, choices, true)
 	if p != nil {
-		x.fails = append(x.fails, &Violation{Signature: "harness-panic", Message: fmt.Sprintf("%v\n%s", p, stack)})
+		x.fails = append(x.fails, panicViolation(p, stack))
 	}
 	return x.fails, x.logs, x.Trace, p
 }
@@ -523,4 +520,18 @@ func WriteResult(path string, r *ShardResult) error {
 		return err
 	}
 	return os.WriteFile(path, b, 0o644)
+}
+
+// panicViolation classifies a panic that escaped the check body. testing/synctest reports a bubble whose
+// goroutines can never run again (a hang) and a bubble that ends while goroutines are still blocked (a leak)
+// by panicking: both are property-relevant outcomes, not harness faults.
+func panicViolation(pan any, stack string) *Violation {
+	msg := fmt.Sprint(pan)
+	switch {
+	case strings.Contains(msg, "blocked goroutines remain"):
+		return &Violation{Signature: "goroutines still blocked when the execution ends (leak or hang)", Message: msg}
+	case strings.Contains(msg, "all goroutines in bubble are blocked"):
+		return &Violation{Signature: "deadlock: the execution hangs", Message: msg}
+	}
+	return &Violation{Signature: "harness-panic", Message: fmt.Sprintf("unexpected panic in check body: %v\n%s", pan, trunc(stack, 3000))}
 }
